@@ -171,9 +171,10 @@ def _is_instance(obj: Any, type_: Any, type_vars: Dict[TypeVar_, Any], context: 
 
         if _is_forward_ref(type_=type_.__bound__):
             resolved = resolve_forward_ref(type_.__bound__.__forward_arg__, context=context)
-            return _is_instance(obj=obj, type_=resolved, type_vars=type_vars, context=context)
 
-        if type_.__bound__ is not None and not isinstance(obj, type_.__bound__):
+            if not _is_instance(obj=obj, type_=resolved, type_vars=type_vars, context=context):
+                return False
+        elif type_.__bound__ is not None and not isinstance(obj, type_.__bound__):
             return False
 
         if type_ in type_vars:
